@@ -17,6 +17,12 @@
       obligation / tie without such a case ends in `no-failing-input-found`, the replay naming the theorems and the
       model counterexamples (e.g. `CPyTagged_TooBig(-2^62) = 1`).
 
+Besides the boundary grid and the random stream there is a result-targeted stream (`error-magic`): for every function
+whose result type has an overlapping error value (i64/i32/i16: -113, u8: 239, float: -113.0 — read from the regenerated
+`cUndefined` table, not hard-coded) operand tuples are constructed whose *exact* result is that value (`magic_targets`);
+code that mistakes such a result for a raised exception (wrong `error_kind` of a primitive, wrong `is_error` test)
+fails on these operands only.  The `unbox_*` functions drive the wrappers' argument unboxing across both range ends.
+
 The oracle demands exactly what the property states (see `judge`): int/bool — result or exception type equal to
 CPython's (negative `**` exponents excluded); fixed width — equal where the exact result fits, ZeroDivisionError, u8
 `+ - *` modulo 256, shift counts outside [0, width) excluded, `int -> iN`: some exception iff out of range; float —
@@ -186,7 +192,111 @@ def norm_cases(ctx: Ctx, fn: gen.Fn, B: list[int]) -> list[tuple[gen.Fn, list, s
     return out
 
 
-def iter_cases(ctx: Ctx, fns: list[gen.Fn]):
+UNOP = {"neg": lambda a: -a, "inv": lambda a: ~a, "pos": lambda a: +a, "conv": lambda a: a, "back": lambda a: a,
+        "unbox": lambda a: a, "float": lambda a: float(a), "abs": lambda a: abs(a)}
+
+
+def magic_targets(fn: gen.Fn, magic: dict[str, object]) -> list[list]:
+    """Operand tuples (in the operand types' ranges) on which the *exact* result of `fn` equals the error value of its
+    result type — the value a C function returns together with a pending exception (`RPrimitive.c_undefined`, read by
+    translate/cfast.py).  For the native types that value is also an ordinary result ("overlapping"); code that tests
+    it without asking `PyErr_Occurred()` (a primitive registered ERR_MAGIC instead of ERR_MAGIC_OVERLAPPING, a wrong
+    `is_error` test in the lowering) fails exactly on these operands and nowhere else."""
+    M = magic.get(fn.ret)
+    if M is None:
+        return []
+    ptypes = fn.params
+
+    def ok(v, t: str) -> bool:
+        if t == "float":
+            return isinstance(v, float)
+        if t == "bool":
+            return isinstance(v, bool)
+        if not isinstance(v, int) or isinstance(v, bool):
+            return False
+        return t == "int" or in_range(v, t)
+
+    def coerce(v, t: str):
+        return float(v) if t == "float" else v
+
+    out: list[list] = []
+    isf = isinstance(M, float)
+    Mi = int(M)
+    if len(ptypes) == 1 and fn.const is None:
+        f = UNOP.get(fn.op)
+        if f is None:
+            return []
+        for a in (Mi, -Mi, ~Mi, Mi + 1, Mi - 1):
+            a = coerce(a, ptypes[0])
+            try:
+                if ok(a, ptypes[0]) and f(a) == M:
+                    out.append([a])
+            except (OverflowError, ValueError, ZeroDivisionError):
+                pass
+        return out
+    op = PYOP.get(fn.op) if not isf and fn.op != "/" else {"+": lambda a, b: a + b, "-": lambda a, b: a - b, "*": lambda a, b: a * b,
+                                                          "/": lambda a, b: a / b, "//": lambda a, b: a // b, "%": lambda a, b: a % b,
+                                                          "**": lambda a, b: a ** b}.get(fn.op)
+    if op is None:
+        return []
+    t2 = ptypes[1] if len(ptypes) > 1 else (fn.ftype or "int")
+    # second operands: small numbers, values around ±M, the ends of the type's range, powers of two
+    bs = {1, -1, 2, -2, 3, -3, 7, -7, 8, 16, 100, -100, 200, -200, Mi, -Mi, Mi - 1, Mi + 1, -Mi - 1, -Mi + 1, 2 * Mi, -2 * Mi,
+          0, 4, 5, 255, 256, -256, 1000, -1000}
+    if t2 in RANGES:
+        lo, hi = RANGES[t2]
+        bs |= {lo, lo + 1, hi, hi - 1}
+    if fn.const is not None:
+        bs = {fn.const}
+    for b in sorted(bs):
+        cands = set()
+        if fn.op == "+":
+            cands = {Mi - b}
+        elif fn.op == "-":
+            cands = {Mi + b}
+        elif fn.op == "^":
+            cands = {Mi ^ b}
+        elif fn.op in ("&", "|"):
+            cands = {Mi, Mi | b if fn.op == "&" else Mi & b}
+        elif fn.op == "*":
+            cands = {Mi // b} if b and Mi % b == 0 else set()
+        elif fn.op in ("//", "/"):
+            cands = {Mi * b, Mi * b + (abs(b) - 1) * (1 if b > 0 else -1), Mi * b + (1 if b > 0 else -1)} if b else set()
+        elif fn.op == "%":
+            cands = {Mi + q * b for q in (0, 1, -1, 2, 5, -7, 163)} if b else set()
+        elif fn.op == "<<":
+            cands = {Mi >> b} if 0 <= b < 64 and Mi % (1 << b) == 0 else set()
+        elif fn.op == ">>":
+            cands = {Mi << b, (Mi << b) + (1 << b) - 1} if 0 <= b < 62 else set()
+        elif fn.op == "**":
+            cands = {Mi} if b == 1 else set()
+        for a in cands:
+            aa, bb = coerce(a, ptypes[0]), coerce(b, t2)
+            if not ok(aa, ptypes[0]) or not ok(bb, t2):
+                continue
+            try:
+                if op(aa, bb) != M:
+                    continue
+            except (OverflowError, ValueError, ZeroDivisionError):
+                continue
+            out.append([aa] if fn.const is not None else [aa, bb])
+    out.sort(key=lambda xs: (max(abs(x) for x in xs), sum(abs(x) for x in xs)))   # small operands first (a crashing
+    return out                                                                    # function is dropped after 3 crashes)
+
+
+def error_magic(inv: dict | None) -> dict[str, object]:
+    """Result type -> error value, from the regenerated `cUndefined` table (never hard-coded)."""
+    out: dict[str, object] = {}
+    for t, text in (inv or {}).get("tables", {}).get("c_undefined", []):
+        try:
+            out[t] = float(text) if t == "float" else int(text)
+        except ValueError:
+            pass            # `int`: CPY_INT_TAG is not the word of any short int; `bool`: 2 is not a bool
+    out.pop("int", None)
+    return out
+
+
+def iter_cases(ctx: Ctx, fns: list[gen.Fn], magic: dict[str, object] | None = None):
     """Generator of (function, operands, stream).  Quick ≈ 4·10^5 cases, thorough ≈ 8·10^6 (× 2 opt levels)."""
     rng = ctx.rng
     B, F = boundary_ints(), boundary_floats()
@@ -204,9 +314,20 @@ def iter_cases(ctx: Ctx, fns: list[gen.Fn]):
     for name, args in REPLAYS:          # model counterexamples of translated helpers, replayed on the real code
         if name in byname:
             yield (byname[name], args, "model-counterexample")
+    for fn in fns:                      # operands whose exact result is the result type's (overlapping) error value
+        if fn.group != "norm":
+            for args in magic_targets(fn, magic or {}):
+                yield (fn, args, "error-magic")
     for fn in fns:
         if fn.group == "norm":
             yield from norm_cases(ctx, fn, B)
+            continue
+        if fn.group == "unbox":
+            lo, hi = RANGES[fn.ftype]
+            for a in sorted(set(B) | {lo - 1, lo, lo + 1, hi - 1, hi, hi + 1, 2 * lo, 2 * hi + 1}):
+                yield (fn, [a], "boundary")
+            for _ in range(ctx.pick(100, 3000)):
+                yield (fn, [rand_int(rng)], "random")
             continue
         vs = [values_for(t, B, F) for t in fn.params]
         total = 1
@@ -323,6 +444,13 @@ def judge(fn: gen.Fn, args: list, ri: str, rc: str) -> tuple[str, str]:
             return "excluded", "complex-result"
         return ("same", "") if ri == rc else ("DIFF", "value")
     t = fn.ftype
+    if g == "unbox":
+        a = int(args[0])
+        if in_range(a, t):
+            return ("same", "") if rc == "ok int %d" % a else ("DIFF", "unboxing-of-in-range-argument")
+        if crashed:
+            return "DIFF", "crash"
+        return ("same", "") if kc == "exc" else ("DIFF", "out-of-range-argument-not-rejected")
     if g == "conv":
         if fn.op == "conv":
             a = int(args[0])
@@ -803,7 +931,9 @@ def main(ctx: Ctx) -> None:
     dirs = {opt: f.result() for opt, f in builds.items()}
     chunk: list[tuple[gen.Fn, list, str]] = []
     nchunk = 0
-    for case in iter_cases(ctx, fns):
+    magic = error_magic(inv) or error_magic(json.load(open(cfast.OUT_JSON)) if os.path.exists(cfast.OUT_JSON) else None)
+    ctx.coverage["error_magic_values"] = {k: str(v) for k, v in magic.items()}
+    for case in iter_cases(ctx, fns, magic):
         chunk.append(case)
         if len(chunk) >= CHUNK:
             nchunk += 1
